@@ -154,6 +154,20 @@ def run(cx):
         return len(frows)
 
     add_family(skel_cases, sk_out, "sk")
+    # a STATEMENT where a call argument is expected (it pushes nothing): refused by the compiler, or compiled into
+    # code that is balanced on every path like any other
+    stm_srcs = [
+        "x := 0\nf := func(a) {\nreturn a\n}\nf(x = 2)", "x := 0\nf := func(a) {\nreturn a\n}\nfor i := range 3 {\nf(x = i)\n}\n1",
+        "l := []\nx := 1\nl.append(x = 2)\nl", "f := func(a) {\nreturn a\n}\nf(for i := range 2 {\n})\n1", "f := func(a) {\nreturn a\n}\nf(import ma)\n1",
+        "x := 1\nf := func(a) {\nreturn a\n}\nx | f(x = 2)", "x := 1\nf := func(a, b) {\nreturn a\n}\nf(1, x += 2)",
+        "x := 1\nf := func(a) {\nreturn a\n}\ngo f(x = 2)\n1", "m := {}\nf := func(a) {\nreturn a\n}\nf(m.a = 1)",
+    ]
+    stm_cases = [{"id": 5000000 + k_, "src": t} for k_, t in enumerate(stm_srcs)]
+    stm_path = cx.path("stm.cases.ndjson")
+    vlib.write_ndjson(stm_path, stm_cases)
+    for c in stm_cases:
+        by_id[c["id"]] = c
+    add_family(stm_cases, stm_path, "stm")
     cx.cover["scaled_shape_code_objects"] = add_family(shape_cases, sh_path, "shp")
     # programs that import file modules (whose last statement is an expression, a function definition, a
     # declaration): an import is stack-neutral wherever it stands - at top level, in a loop body, in a function, in a
